@@ -12,6 +12,17 @@ Monitors (all on the real ``onnx_ir`` objects, through public API only):
   (``SymbolicDim(str(e))``; also of the partial residual and of the simplified dimension), after
   ``Shape.evaluate`` and after a serde round trip of a value whose shape holds the dimension
   (``dim_param``);
+* user-supplied SymPy expressions - a third of the random trees get leaves made with the
+  documented third constructor form, ``SymbolicDim(<sympy.Expr>)``: symbols the user created with
+  assumptions of his own (none, integer, positive, real ...; distinct SymPy objects from the symbol
+  the library derives from the same name as text, several of them possibly in one expression) and
+  ring expressions computed in SymPy; all monitors above run on them unchanged;
+* mixed shapes - a ``Shape`` of 2-4 dimensions of different provenance (ints, unknown, names,
+  grammar texts as a loaded ``dim_param`` holds them, operator-built expressions, expressions with
+  user-supplied SymPy leaves) over the same few symbol names: after each dimension was seen to
+  evaluate exactly on its own, ``Shape.evaluate`` (complete, and one symbol at a time on the
+  residual shape), ``Shape.simplify`` (then ``evaluate``) and ``Shape.free_symbols`` must give
+  position i what dimension i gives on its own, i.e. the exact value;
 * strings of the documented grammar (random derivations; bounded exhaustive enumeration of flat
   and singly parenthesised strings) judged against Python's own parse of the same text evaluated
   with ``Fraction`` operands (``vfpy/c16_grammar.py``), then used in further arithmetic and
@@ -51,7 +62,12 @@ LEVEL = "exploration"
 RULE = (
     "tree case: random tree (depth <= 6, 1-3 symbols, int literals on either side) or a member of "
     "the enumerated family of all 1-2 operator trees; non-trivial iff it has >= 2 operators, at "
-    "least one binding is in domain and the real build produced a SymbolicDim; distinct by tree. "
+    "least one binding is in domain and the real build produced a SymbolicDim; distinct by tree; a "
+    "third of the random trees carry user-supplied SymPy leaves (symbols with 6 assumption sets, ring "
+    "expressions). mixed-shape case: 2-4 dimensions drawn from {int, unknown, name, grammar text, "
+    "operator-built tree, tree with user-supplied SymPy leaves} over 1-3 symbol names; non-trivial iff "
+    "it holds a user-supplied dimension and one of another provenance and Shape.evaluate was compared; "
+    "distinct by the list of dimensions. "
     "string case: random derivation of the documented grammar, or a member of the enumeration "
     "(all flat strings 'u x (op u x)*' and all such strings with one parenthesised operand range, "
     "operands {N,M,2}, seven binary operators, unary-minus runs, total operators <= 2 quick / <= 3 "
@@ -65,7 +81,9 @@ ASSUMPTIONS = [
     "min/max can only be entered as text: SymbolicDim('max(a, b)') with harness-rendered operands",
     "int // dim and int % dim are not offered by the library (TypeError): counted report-only",
     "a greedy shrink names the mechanism; two defects in one expression may be reported as one",
-    "SymPy is imported by the harness only to attribute a disagreement (signature 'same-in-sympy'), never for a verdict",
+    "SymPy is imported by the harness only to attribute a disagreement (signature 'same-in-sympy') and to "
+    "construct user-supplied inputs (symbols with declared assumptions; +, -, *, unary minus over them), never for a verdict",
+    "user-declared assumptions are limited to those a positive integer binding satisfies (none, integer, positive, real, nonnegative integer)",
     "a single case that keeps SymPy busy for more than 6 s is abandoned and counted (cases_abandoned_slow)",
 ]
 
@@ -146,6 +164,11 @@ def plan(tier: str) -> dict:
             "op_neg": 30,
             "op_min(text)": 8,
             "op_max(text)": 8,
+            "trees_with_user_sympy_leaves": 60 if quick else 600,
+            "mixshape_evaluate_compared": 1000 if quick else 10000,
+            "mixshape_partial_compared": 500 if quick else 5000,
+            "mixshape_simplify_compared": 300 if quick else 3000,
+            "mixshape_one_name_as_several_symbols": 100 if quick else 1000,
         },
         "min_nontrivial": 2500 if quick else 40000,
         "params": lay,
@@ -202,6 +225,15 @@ class Fail:
 
 def _nocount(key, n=1):
     return None
+
+
+def _user_leaf(node):
+    """A dimension from a user-supplied SymPy expression (third documented constructor form)."""
+    return ir.SymbolicDim(T.user_expr(node))
+
+
+def build(t, count=None):
+    return X.build_real(t, ir.SymbolicDim, count, user_leaf=_user_leaf)
 
 
 # ---- bounding the run (never a verdict): SymPy occasionally needs minutes for one call ----------
@@ -291,7 +323,7 @@ def tree_fails(t, bindings, which=ALL_KINDS, count=_nocount, order_seed=0, via_s
             exacts.append(None)
     any_in_domain = any(v is not None for v in exacts)
     try:
-        e = X.build_real(t, ir.SymbolicDim, count)
+        e = build(t, count)
     except X.UnsupportedReflected as u:
         count(f"report_only_unsupported_reflected_{u.op}")
         return None
@@ -712,7 +744,7 @@ def sympy_verdict_tree(t, bindings, kind: str, order_seed: int) -> str | None:
     twin_build = _outcome(lambda: T.simplified(T.from_tree(t)) if kind == "simplify" else T.from_tree(t))
 
     def lib_build():
-        e = X.build_real(t, ir.SymbolicDim)
+        e = build(t)
         return e.simplify() if kind == "simplify" else e
 
     try:
@@ -761,7 +793,7 @@ def _floor_printed_as_identity(t, bindings) -> str | None:
                 return r
         for probe in ([["truediv", n[1], n[2]]] if n[0] == "floordiv" else []) + [n]:
             try:
-                d = X.build_real(probe, ir.SymbolicDim)
+                d = build(probe)
                 if not isinstance(d, ir.SymbolicDim):
                     continue
                 for b in bindings:
@@ -858,6 +890,10 @@ def _name_tree_failure(t, bindings, f, order_seed, via_shape):
         sig = f"print-parse|{cls}|{mech}{stage}"
     else:
         sig = f"{w.kind}|{w.cls}|{X.shape(small)}{stage}"
+        if w.kind == "shape" and names_from_several_sources([["expr", small], ["name", "M"]]):
+            # Shape([e, 7, "M", None]): a name reaches the shape as several SymPy objects - that,
+            # not the operators around it, is the mechanism (the dimension alone evaluated exactly)
+            sig = f"shape|{w.cls}|one-name-as-several-sympy-symbols"
         if w.kind in ("eval", "partial", "simplify", "build", "shape", "serde"):
             label = sympy_verdict_tree(small, bindings, twin_kind, order_seed)
             if label:
@@ -905,7 +941,7 @@ def judge_tree(ctx, t, bindings, order_seed, via_shape, source, kinds=ALL_KINDS)
 
 def _safe_text(t):
     try:
-        return str(X.build_real(t, ir.SymbolicDim))
+        return str(build(t))
     except Exception as exc:  # noqa: BLE001
         return _exc(exc)
 
@@ -1092,6 +1128,410 @@ def judge_string(ctx, text, pytext, names, bindings, source, extra_sel=0, extras
 
 
 # ================================================================================================
+# shapes that mix dimensions of different provenance
+# ================================================================================================
+# A shape is a list of dimension specs:
+#   ["int", k] | ["none"] | ["name", s] (a str handed to Shape) | ["text", tree] (the str of an
+#   expression of the documented grammar, as a loaded dim_param holds it) | ["expr", tree] (built with
+#   the operator overloads; the tree may contain user-supplied SymPy leaves).
+# One symbol *name* may therefore reach the shape as several distinct SymPy objects.  What the
+# shape-level calls return for position i is judged against the exact value of dimension i (which
+# is also what dimension i returns on its own - established first, so that a disagreement is one
+# of the shape-level call).
+UNBOUND_NAME = "batch"
+
+
+def dim_source(spec) -> str:
+    k = spec[0]
+    if k in ("int", "none", "name", "text"):
+        return {"int": "int", "none": "unknown", "name": "name", "text": "text"}[k]
+    return "user-sympy" if X.has_user(spec[1]) else "operators"
+
+
+def _dim_tree(spec):
+    if spec[0] == "name":
+        return ["sym", spec[1]]
+    return spec[1] if spec[0] in ("text", "expr") else None
+
+
+def build_dim(spec, count=_nocount):
+    k = spec[0]
+    if k == "int":
+        return spec[1]
+    if k == "none":
+        return None
+    if k == "name":
+        return spec[1]
+    if k == "text":
+        return X.render(spec[1])
+    return build(spec[1], count)
+
+
+def names_from_several_sources(specs) -> list[str]:
+    """Symbol names that reach the shape as more than one distinct SymPy object."""
+    by_name: dict[str, set] = {}
+    for sp in specs:
+        t = _dim_tree(sp)
+        if t is None:
+            continue
+        for name, src in X.symbol_sources(t):
+            by_name.setdefault(name, set()).add(src)
+    return sorted(n for n, srcs in by_name.items() if len(srcs) > 1)
+
+
+def _dim_ok(spec, r, want, b) -> bool:
+    k = spec[0]
+    if k == "int":
+        return isinstance(r, int) and not isinstance(r, bool) and r == spec[1]
+    if k == "none":
+        return isinstance(r, ir.SymbolicDim) and r.value is None
+    if want is None:  # a name without a binding stays what it is
+        return isinstance(r, ir.SymbolicDim) and r.value == spec[1]
+    return as_exact(r) == want
+
+
+def mixshape_fails(specs, bindings, order_seed=0, do_simplify=False, count=_nocount):
+    """Returns (fails, alone) - ``alone``: positions whose dimension already disagrees with the
+    exact value on its own (build or ``SymbolicDim.evaluate``); those are the business of the
+    tree / string monitors and nothing is judged at shape level then."""
+    trees = [_dim_tree(sp) for sp in specs]
+    usable = []
+    for b in bindings:
+        wants = []
+        for sp, t in zip(specs, trees):
+            if t is None or (sp[0] == "name" and sp[1] not in b):
+                wants.append(None)
+                continue
+            try:
+                wants.append(X.exact(t, b))
+            except G.OutOfDomain:
+                wants = None
+                break
+        if wants is not None:
+            usable.append((b, wants))
+    if not usable:
+        count("mixshape_out_of_domain_for_all_bindings")
+        return [], []
+    usable = usable[:2]
+    objs, alone = [], []
+    for i, sp in enumerate(specs):
+        try:
+            objs.append(build_dim(sp, count))
+        except X.UnsupportedReflected as u:
+            count(f"report_only_unsupported_reflected_{u.op}")
+            return [], []
+        except X.NotBuildable:
+            raise
+        except Exception:  # noqa: BLE001 - judged by the tree monitor
+            alone.append(i)
+            objs.append(None)
+    if alone:
+        return [], alone
+    try:
+        shape = ir.Shape(objs)
+    except Exception as exc:  # noqa: BLE001 - the text of a dimension is parsed lazily
+        return [Fail("mixed-shape", "Shape()-raises:" + _exc_class(exc), exc=_exc(exc))], []
+    held = list(shape)
+    for i, sp in enumerate(specs):
+        if sp[0] in ("int", "none"):
+            continue
+        for b, wants in usable:
+            try:
+                r = held[i].evaluate(b)
+            except Exception:  # noqa: BLE001
+                alone.append(i)
+                break
+            if not _dim_ok(sp, r, wants[i], b):
+                alone.append(i)
+                break
+    if alone:
+        return [], alone
+    count("mixshape_shapes")
+    fails: list[Fail] = []
+    rank = len(specs)
+
+    def compare(cls, result, b, wants, counter):
+        if not isinstance(result, ir.Shape) or result.rank() != rank:
+            fails.append(Fail("mixed-shape", cls + ":not-a-shape-of-same-rank", binding=b, got=result))
+            return False
+        for i, sp in enumerate(specs):
+            count(counter)
+            if not _dim_ok(sp, result[i], wants[i], b):
+                fails.append(Fail("mixed-shape", cls + ":dim-differs-from-dim.evaluate", dim_source(sp),
+                                  binding=b, got=list(result), want=wants[i], text=f"position {i} of {shape}"))
+                return False
+        return True
+
+    # ---- Shape.evaluate, complete bindings ------------------------------------------------------
+    for b, wants in usable:
+        try:
+            se = shape.evaluate(b)
+        except Exception as exc:  # noqa: BLE001
+            fails.append(Fail("mixed-shape", "evaluate-raises:" + _exc_class(exc), binding=b, exc=_exc(exc)))
+            break
+        if not compare("evaluate", se, b, wants, "mixshape_evaluate_compared"):
+            break
+    if fails:
+        # the other clauses go through the same call: report the root cause only
+        return fails, []
+
+    # ---- Shape.evaluate one symbol at a time: the residual shape completes to the same values -----
+    for bi, (b, wants) in enumerate(usable[:1]):
+        order = _partial_order(sorted(b), order_seed + bi)
+        r = shape
+        bound: list[str] = []
+        bad = False
+        for s_ in order:
+            try:
+                r = r.evaluate({s_: b[s_]})
+            except Exception as exc:  # noqa: BLE001
+                fails.append(Fail("mixed-shape", "partial-raises:" + _exc_class(exc), binding={"order": order, **b}, exc=_exc(exc)))
+                bad = True
+                break
+            bound.append(s_)
+            count("mixshape_partial_steps")
+            if not isinstance(r, ir.Shape) or r.rank() != rank:
+                fails.append(Fail("mixed-shape", "partial:not-a-shape-of-same-rank", binding={"order": order, **b}, got=r))
+                bad = True
+                break
+            for i, sp in enumerate(specs):
+                d = r[i]
+                if isinstance(d, ir.SymbolicDim) and d.value is not None and as_exact(d) is None:
+                    try:
+                        left = set(d.free_symbols())
+                    except Exception:  # noqa: BLE001 - judged on single dimensions
+                        continue
+                    if left & set(bound):
+                        fails.append(Fail("mixed-shape", "partial:bound-symbol-remains", dim_source(sp),
+                                          binding={"order": order, **b}, got=list(r), want=wants[i],
+                                          text=f"position {i} of {shape} after binding {bound}"))
+                        bad = True
+                        break
+            if bad:
+                break
+        if bad or not compare("partial", r, {"order": order, **b}, wants, "mixshape_partial_compared"):
+            break
+
+    # ---- Shape.simplify never changes an evaluation -----------------------------------------------
+    if do_simplify:
+        try:
+            ss = shape.simplify()
+        except Exception as exc:  # noqa: BLE001 - as for a single dimension: report only
+            count("report_only_simplify_raised_" + type(exc).__name__)
+            ss = None
+        if ss is not None:
+            count("mixshape_simplify_calls")
+            if not isinstance(ss, ir.Shape) or ss.rank() != rank:
+                fails.append(Fail("mixed-shape", "simplify:not-a-shape-of-same-rank", got=ss))
+            else:
+                for b, wants in usable:
+                    ok = True
+                    for i, sp in enumerate(specs):
+                        d = ss[i]
+                        try:
+                            r = d.evaluate(b) if isinstance(d, ir.SymbolicDim) else d
+                        except Exception as exc:  # noqa: BLE001
+                            fails.append(Fail("mixed-shape", "simplify:evaluate-raises:" + _exc_class(exc), dim_source(sp), binding=b, exc=_exc(exc)))
+                            ok = False
+                            break
+                        count("mixshape_simplify_compared")
+                        if not _dim_ok(sp, r, wants[i], b):
+                            fails.append(Fail("mixed-shape", "simplify:changes-evaluation", dim_source(sp), binding=b,
+                                              got=r, want=wants[i], text=f"position {i} of {shape} -> {ss}"))
+                            ok = False
+                            break
+                    if not ok:
+                        break
+                    try:
+                        se = ss.evaluate(b)
+                    except Exception as exc:  # noqa: BLE001
+                        fails.append(Fail("mixed-shape", "simplify-then-evaluate-raises:" + _exc_class(exc), binding=b, exc=_exc(exc)))
+                        break
+                    if not compare("simplify-then-evaluate", se, b, wants, "mixshape_simplify_compared"):
+                        break
+
+    # ---- free symbols of the shape: the union over its dimensions ------------------------------------
+    try:
+        union = set()
+        for d in held:
+            if isinstance(d, ir.SymbolicDim):
+                union |= set(d.free_symbols())
+        got = set(shape.free_symbols())
+        count("mixshape_free_symbols_compared")
+        if got != union:
+            fails.append(Fail("mixed-shape", "free_symbols-not-union", got=sorted(got), want=sorted(union)))
+    except Exception as exc:  # noqa: BLE001
+        fails.append(Fail("mixed-shape", "free_symbols-raises:" + _exc_class(exc), exc=_exc(exc)))
+    return fails, []
+
+
+def _pretty_spec(sp) -> str:
+    k = sp[0]
+    if k == "int":
+        return str(sp[1])
+    if k == "none":
+        return "None"
+    if k == "name":
+        return repr(sp[1])
+    if k == "text":
+        return repr(X.render(sp[1]))
+    return X.pretty(sp[1])
+
+
+def pretty_specs(specs) -> str:
+    return "Shape([" + ", ".join(_pretty_spec(sp) for sp in specs) + "])"
+
+
+def _leaves(t) -> list:
+    if X.is_leaf(t):
+        return [t] if t[0] != "int" else []
+    out = []
+    for c in X.children(t):
+        for leaf in _leaves(c):
+            if leaf not in out:
+                out.append(leaf)
+    return out
+
+
+def _name_mixshape_failure(specs, bindings, f, order_seed, do_simplify):
+    def same(cand) -> bool:
+        try:
+            got, _ = mixshape_fails(cand, bindings, order_seed, do_simplify)
+        except X.NotBuildable:
+            return False
+        return any(g.key == f.key for g in got)
+
+    cur = [list(sp) for sp in specs]
+    i = 0
+    while i < len(cur):  # 1. fewer dimensions
+        cand = cur[:i] + cur[i + 1:]
+        if cand and same(cand):
+            cur = cand
+        else:
+            i += 1
+    for i, sp in enumerate(cur):  # 2. a dimension -> a bare name / one of its leaves
+        t = _dim_tree(sp)
+        if sp[0] not in ("text", "expr") or X.is_leaf(t):
+            continue
+        cands = [["name", n] for n in X.symbols(t)] + [["expr", leaf] for leaf in _leaves(t)]
+        for c in cands:
+            if same(cur[:i] + [c] + cur[i + 1:]):
+                cur[i] = c
+                break
+    for i, sp in enumerate(cur):  # 3. smaller trees
+        if sp[0] == "expr" and not X.is_leaf(sp[1]):
+            cur[i] = ["expr", X.shrink_tree(sp[1], lambda c, i=i: same(cur[:i] + [["expr", c]] + cur[i + 1:]), max_tests=20)]
+    got, _ = mixshape_fails(cur, bindings, order_seed, do_simplify)
+    again = [g for g in got if g.key == f.key]
+    w = again[0] if again else f
+    if not again:
+        cur = [list(sp) for sp in specs]
+    if names_from_several_sources(cur):
+        # the mechanism, whatever the provenance and position of the dimensions that share the name
+        sig = f"mixed-shape|{w.cls}|one-name-as-several-sympy-symbols"
+    else:
+        sources = "+".join(sorted({dim_source(sp) for sp in cur}))
+        sig = f"mixed-shape|{w.cls}" + (f"|failing-dim={w.stage}" if w.stage else "") + f"|dims={sources}"
+    return sig, cur, w
+
+
+def report_mixshape(ctx, specs, bindings, fails, order_seed, do_simplify, source) -> None:
+    seen: set = set()
+    for f in fails:
+        if f.key in seen:
+            continue
+        seen.add(f.key)
+        try:
+            with bounded(NAMING_LIMIT_S):
+                sig, small, w = _name_mixshape_failure(specs, bindings, f, order_seed, do_simplify)
+        except Slow:
+            ctx.count("violations_unnamed_abandoned_slow")
+            ctx.note(f"naming abandoned (slow): {f.describe()[:300]} in {pretty_specs(specs)[:300]}")
+            continue
+        msg = (f"{w.describe()}\n  minimal witness: {pretty_specs(small)}   specs={small}\n"
+               f"  found in ({source}): {pretty_specs(specs)}")
+        ctx.violation(sig, msg, {"what": "mixshape", "specs": small, "bindings": bindings,
+                                 "order_seed": order_seed, "simplify": do_simplify, "original": specs})
+
+
+def judge_mixshape(ctx, specs, bindings, order_seed, do_simplify, source) -> None:
+    before = ctx.counters.get("mixshape_evaluate_compared", 0)
+    try:
+        with bounded(CASE_LIMIT_S):
+            fails, alone = mixshape_fails(specs, bindings, order_seed, do_simplify, ctx.count)
+    except Slow:
+        ctx.count("cases_abandoned_slow")
+        ctx.count("mixshapes_abandoned_slow")
+        ctx.note(f"abandoned (slow): {pretty_specs(specs)[:400]} bindings={bindings}")
+        return
+    except X.NotBuildable:
+        ctx.count("mixshape_not_buildable")
+        return
+    for i in alone:
+        # the dimension disagrees on its own: judged (and named) by the single-dimension monitors
+        ctx.count("mixshape_dimension_alone_disagrees")
+        sp = specs[i]
+        if sp[0] == "text":
+            text = X.render(sp[1])
+            judge_string(ctx, text, text, {n: n for n in SYMS}, [{k: v for k, v in b.items() if k in SYMS} for b in bindings],
+                         f"{source}, dimension {i}", extras=False)
+        elif sp[0] == "expr":
+            judge_tree(ctx, sp[1], bindings, order_seed, False, f"{source}, dimension {i}", ("eval",))
+    if alone:
+        return
+    compared = ctx.counters.get("mixshape_evaluate_compared", 0) > before
+    shared = names_from_several_sources(specs)
+    srcs = {dim_source(sp) for sp in specs}
+    for src in srcs:
+        ctx.count(f"mixshape_with_{src}")
+    if shared and compared:
+        ctx.count("mixshape_one_name_as_several_symbols")
+    ctx.evaluation(key={"mixshape": specs}, nontrivial=bool(compared and "user-sympy" in srcs and len(srcs) > 1))
+    if fails:
+        report_mixshape(ctx, specs, bindings, fails, order_seed, do_simplify, source)
+
+
+SYMS = ("N", "M", "K")
+
+
+def _gen_spec(rng, syms, kind):
+    if kind == "int":
+        return ["int", rng.choice((1, 2, 3, 4, 7, 16, 224))]
+    if kind == "none":
+        return ["none"]
+    if kind == "name":
+        return ["name", UNBOUND_NAME if rng.random() < 0.1 else rng.choice(syms)]
+    if kind == "text":
+        return ["text", X.gen_tree(rng, rng.choice((1, 1, 2)), syms, True, True)]
+    if kind == "operators":
+        return ["expr", X.gen_tree(rng, rng.choice((1, 2, 2, 3)), syms)]
+    t = X.gen_tree(rng, rng.choice((0, 1, 1, 2, 2, 3)), syms)
+    for _ in range(6):
+        u = X.userize(rng, t, 0.8, 0.35)
+        if X.has_user(u):
+            return ["expr", u]
+    return ["expr", ["usym", rng.choice(syms), rng.choice(X.USER_TAGS[:-1])]]
+
+
+def mixshape_case(ctx, rng, case) -> None:
+    syms = list(SYMS[: rng.choice((1, 1, 2, 2, 3))])
+    kinds = [rng.choice(("int", "none", "name", "name", "text", "text", "operators", "operators",
+                         "user-sympy", "user-sympy", "user-sympy")) for _ in range(rng.choice((2, 2, 3, 3, 4)))]
+    if "user-sympy" not in kinds and rng.random() < 0.85:
+        kinds[rng.randrange(len(kinds))] = "user-sympy"
+    if not set(kinds) & {"name", "text", "operators"} and rng.random() < 0.85:
+        kinds.insert(rng.randrange(len(kinds) + 1), rng.choice(("name", "text", "operators")))
+    specs = [_gen_spec(rng, syms, k) for k in kinds]
+    bindings = [{"N": _value(rng), "M": _value(rng), "K": _value(rng), "unused_dim": _value(rng)} for _ in range(3)]
+    bindings[0] = {k: (v if v <= 12 else rng.randint(1, 12)) for k, v in bindings[0].items()}
+    n_ops = sum(X.n_ops(t) for t in map(_dim_tree, specs) if t is not None)
+    do_simplify = n_ops <= 8 and rng.random() < 0.25
+    judge_mixshape(ctx, specs, bindings, rng.randrange(24), do_simplify, f"random mixed shape {case}")
+    if case % 7 == 0 and len(ctx.samples) < ctx.MAX_SAMPLES:
+        ctx.sample({"mixed_shape": pretty_specs(specs), "bindings": bindings[0]})
+
+
+# ================================================================================================
 # case generation
 # ================================================================================================
 def _value(rng) -> int:
@@ -1120,6 +1560,13 @@ def tree_case(ctx, rng, case) -> None:
     bindings[0] = {k: (v if v <= 12 else rng.randint(1, 12)) for k, v in bindings[0].items()}
     order_seed = rng.randrange(6)
     via_shape = rng.random() < 0.3
+    # a third of the trees get user-supplied SymPy leaves (own random stream: the other choices
+    # of the case stay what they were)
+    urng = ctx.rng(case, "user")
+    if urng.random() < 0.33:
+        t = X.userize(urng, t)
+        if X.has_user(t):
+            ctx.count("trees_with_user_sympy_leaves")
     # SymPy's simplify is the dominant cost and grows steeply with size: big trees go without
     kinds = ALL_KINDS
     if X.n_ops(t) > 14:
@@ -1198,6 +1645,7 @@ def run(ctx) -> None:
             rng = ctx.rng(case)
             tree_case(ctx, rng, case)
             strings_case(ctx, rng, case)
+            mixshape_case(ctx, ctx.rng(case, "mixshape"), case)
     ctx.exhaustive = done_enum_blocks == my_enum_blocks
     if ctx.exhaustive:
         ctx.count("shards_that_completed_their_share_of_the_string_enumeration")
@@ -1211,6 +1659,12 @@ def replay(replay_data, ctx) -> None:
         fails = tree_fails(t, bindings, ALL_KINDS, ctx.count, replay_data.get("order_seed", 0), replay_data.get("via_shape", False))
         if fails:
             report_tree(ctx, t, bindings, fails, replay_data.get("order_seed", 0), replay_data.get("via_shape", False), "replay")
+    elif replay_data.get("what") == "mixshape":
+        specs, bindings = replay_data["specs"], replay_data["bindings"]
+        order_seed, do_simplify = replay_data.get("order_seed", 0), replay_data.get("simplify", False)
+        fails, _ = mixshape_fails(specs, bindings, order_seed, do_simplify, ctx.count)
+        if fails:
+            report_mixshape(ctx, specs, bindings, fails, order_seed, do_simplify, "replay")
     elif replay_data.get("what") == "string":
         text, pytext = replay_data["text"], replay_data["pytext"]
         names, bindings = replay_data["names"], replay_data["bindings"]
